@@ -409,6 +409,11 @@ func FireTimers() { time.Sleep(time.Duration(Param("native_timer_ms", 1300)) * t
 // FireTickers makes every time.Ticker deliver one tick (natively tickers run on real time).
 func FireTickers() { time.Sleep(time.Duration(Param("native_tick_ms", 1300)) * time.Millisecond) }
 
+// ExpireDeadlines lets the deadline of every live context made by context.WithTimeout or
+// WithDeadline pass (under gosym they are cancelled with context.DeadlineExceeded; a deadline
+// never passes by itself there). Natively real time has to pass: the run sleeps for d.
+func ExpireDeadlines(d time.Duration) { time.Sleep(d) }
+
 // AdvanceClock lets an arbitrary amount of time pass (under gosym the ghost clock takes a new,
 // larger symbolic reading). Natively real time has to pass when the replayed path needs it: the
 // replay file holds the ghost clock's successive readings (clock, clock#1, ...); if any two of
